@@ -1418,10 +1418,6 @@ public:
 
 	wt_ref_t wx, wy;
 	
-	if (left.vert_map.size() < right.vert_map.size()) {
-	  return false;
-	}
-	
 	// Set up a mapping from o to this.
 	std::vector<unsigned int> vert_renaming(right.g.size(), -1);
 	vert_renaming[0] = 0;
